@@ -7,6 +7,7 @@ open Model.Access Model.Types
 
 /-- how much an arm lets through, worst last -/
 inductive Grade where
+  | exact      -- PHP's rule on the lexical class and the declaring class: lets through exactly what is allowed
   | sound      -- never lets a forbidden access through (may refuse more than PHP does)
   | relatives  -- a private member is also usable from code running on a descendant or an ancestor class
   | ctxOpen    -- no modifier test, but only reachable from a class context
@@ -15,10 +16,12 @@ inductive Grade where
 deriving DecidableEq, Repr
 
 def Grade.rank : Grade → Nat
-  | .sound => 0 | .relatives => 1 | .ctxOpen => 2 | .open_ => 3 | .broken => 4
+  | .exact => 0 | .sound => 1 | .relatives => 2 | .ctxOpen => 3 | .open_ => 4 | .broken => 5
 
 def gradeOf : Check → Grade
   | .unchecked => .open_
+  | .lexical true true _ => .exact
+  | .lexical _ _ _ => .broken
   | .hier true true _ => .relatives
   | .hier _ _ _ => .broken
   | .pubOnly => .sound
@@ -28,15 +31,31 @@ def gradeOf : Check → Grade
   | .privDenied => .sound
   | .shapeChanged => .broken
 
-/-- the worst grade each arm is known to have (`known` findings of props/C07.json):
-* `->`/dynamic paths on another object: private enforced like protected (`leak:<path>:priv:descendant|ancestor`);
-* the same paths on `$this`: nothing tested (`leak:<path>/this:priv:…`);
-* `$this[...]` read: an inherited property is read from the raw storage (`leak:idxRead/this:priv:…`);
-* `A::$p` read/write: modifier lost at parse time (`leak:staticProp…`);
-* `self::` / `static::`: nothing tested (`leak:self…`, `leak:staticKw…`);
-* `A::m()`, `unset($o->p)`: as the `->` paths after the fixes; `unset($this[...])` is a no-op in the code;
-* `foreach` over an object lists every property whatever its modifier (`leak:iterate:…`). -/
+/-- the worst grade each arm is known to have (`known` findings of props/C07.json). After the second round of
+repairs (`fixes/C07-1-*` … `C07-3-*`) what is left is:
+* `A::$p` read/write: the modifier of a static property is lost at parse time (`leak:staticProp…`);
+* `self::$p` / `static::$p`: for the same reason nothing can be tested (`leak:selfProp…`, `leak:staticKwProp…`);
+* `unset($this[...])` is a no-op in the code (no finding, the arm tests nothing);
+* `$o['p']`, `$this['p']`, `unset($o['p'])`: public members only (sound, refuses more than PHP);
+* `parent::m()`: private refused (sound and, at the sites where it can stand, exact: `C07_parent_exact`).
+Every other arm — `$o->p`, `$o->p = v`, `$o->m()`, `$o->$n`, `$o->$n = v`, `$o->$n()`, `unset($o->p)`, on `$this`
+as on any other object, `A::m()`, `self::m()`, `static::m()`, `foreach` — must be `exact`. -/
 def known : Path → Recv → Grade
+  | .propRead, _ | .propWrite, _ | .methCall, _
+  | .dynPropRead, _ | .dynPropWrite, _ | .dynMeth, _ => .exact
+  | .idxRead, _ | .idxWrite, _ => .sound
+  | .staticPropRead, _ | .staticPropWrite, _ => .open_
+  | .staticMeth, _ => .exact
+  | .selfMeth, _ | .staticKwMeth, _ => .exact
+  | .selfProp, _ | .staticKwProp, _ => .ctxOpen
+  | .parentMeth, _ => .sound
+  | .unsetProp, _ => .exact
+  | .unsetIdx, .this => .open_
+  | .unsetIdx, .other => .sound
+  | .iterate, _ => .exact
+
+/-- what was known before the second round of repairs (the obligation then was `rank ≤` this) -/
+def knownBefore : Path → Recv → Grade
   | .propRead, .this | .propWrite, .this | .methCall, .this
   | .dynPropRead, .this | .dynPropWrite, .this | .dynMeth, .this => .open_
   | .propRead, .other | .propWrite, .other | .methCall, .other
@@ -57,16 +76,61 @@ def known : Path → Recv → Grade
 def TableOK (T : Table) : Bool :=
   Path.all.all (fun p => [Recv.this, Recv.other].all (fun r => (gradeOf (T p r)).rank ≤ (known p r).rank))
 
+theorem Path.mem_all (p : Path) : p ∈ Path.all := by cases p <;> decide
+
+/-- the obligation, arm by arm -/
+theorem TableOK_arm {T : Table} (h : TableOK T = true) (p : Path) (r : Recv) :
+    (gradeOf (T p r)).rank ≤ (known p r).rank := by
+  unfold TableOK at h
+  have h1 := List.all_eq_true.mp h p (Path.mem_all p)
+  have h2 := List.all_eq_true.mp h1 r (by cases r <;> decide)
+  exact of_decide_eq_true h2
+
+/-- an arm graded `exact` is the lexical test with both guards -/
+theorem gradeOf_exact {c : Check} (h : (gradeOf c).rank = 0) : ∃ nc, c = .lexical true true nc := by
+  cases c with
+  | lexical a b nc =>
+    cases a <;> cases b <;> simp [gradeOf, Grade.rank] at h
+    exact ⟨nc, rfl⟩
+  | hier a b t => cases a <;> cases b <;> simp [gradeOf, Grade.rank] at h
+  | pubOnlyOwn e => cases e <;> simp [gradeOf, Grade.rank] at h
+  | _ => simp [gradeOf, Grade.rank] at h
+
+/-- a table within the known findings performs the lexical test on every arm that is known as `exact` -/
+theorem TableOK_exact {T : Table} (h : TableOK T = true) {p : Path} {r : Recv} (hk : known p r = .exact) :
+    ∃ nc, T p r = .lexical true true nc := by
+  have := TableOK_arm h p r
+  rw [hk] at this
+  exact gradeOf_exact (Nat.le_zero.mp this)
+
 def BKind.rank : BKind → Nat
   | .exact => 0 | .nullAlso => 1 | .unchecked => 2 | .shapeChanged => 3
 
-/-- the worst kind each boundary is known to have (`type:<boundary>:null|nonnull` findings) -/
+/-- the worst kind each boundary is known to have (`type:<boundary>:null|nonnull` findings): after
+`fixes/C07-4-*` … `C07-6-*` only `A::$p = v` (declared type lost at parse time) and closure / arrow-function
+return types (dropped by `LambdaExpression.GetValue`) are left unchecked -/
 def knownBoundary : Boundary → BKind
+  | .propStore | .dynPropStore | .fnReturn | .idxStore
+  | .fnParam | .methParam | .staticParam | .ctorParam | .methReturn | .closureParam | .promotedParam => .exact
+  | .staticStore | .closureReturn => .unchecked
+
+/-- what was known before the second round of repairs -/
+def knownBoundaryBefore : Boundary → BKind
   | .propStore | .dynPropStore | .fnReturn => .exact
   | .fnParam | .methParam | .staticParam | .ctorParam | .methReturn | .closureParam | .promotedParam => .nullAlso
   | .idxStore | .staticStore | .closureReturn => .unchecked
 
 def BoundariesOK (B : Boundary → BKind) : Bool :=
   Boundary.all.all (fun b => BKind.rank (B b) ≤ BKind.rank (knownBoundary b))
+
+theorem Boundary.mem_all (b : Boundary) : b ∈ Boundary.all := by cases b <;> decide
+
+/-- a boundary table within the known findings is `exact` wherever `exact` is what is known -/
+theorem BoundariesOK_exact {B : Boundary → BKind} (h : BoundariesOK B = true) {b : Boundary}
+    (hk : knownBoundary b = .exact) : B b = .exact := by
+  unfold BoundariesOK at h
+  have h1 := of_decide_eq_true (List.all_eq_true.mp h b (Boundary.mem_all b))
+  rw [hk] at h1
+  cases hb : B b <;> simp [hb, BKind.rank] at h1 ⊢
 
 end Proofs.AccessKnown
